@@ -146,4 +146,53 @@ theorem inRP_close (x1 x2 : ℝ) (h : InRect RP x1 x2) :
   norm_num at h1 h2 h3 h4 ⊢
   refine ⟨⟨by linarith, by linarith⟩, ⟨by linarith, by linarith⟩⟩
 
+/-! ### the metadata row -/
+
+theorem tag_eq (i row : Nat) : tag i row = row := by
+  show row + (i - i) = row
+  omega
+
+theorem famRows_complete (fam : Nat) : ∀ (l : List Nat) (n : Nat), l.length ≤ n →
+    ∀ row ∈ l, Dy.word row 0 = fam → row ∈ famRows fam l n
+  | [], _, _, row, h, _ => by simp at h
+  | x :: t, 0, hn, _, _, _ => by simp at hn
+  | x :: t, n + 1, hn, row, h, hf => by
+    have hn' : t.length ≤ n := by simpa using hn
+    simp only [famRows, tag_eq]
+    rcases List.mem_cons.1 h with rfl | h'
+    · have : Nat.beq (Dy.word row 0) fam = true := by rw [hf]; exact Nat.beq_refl fam
+      rw [this, cond_true]; exact List.mem_cons_self
+    · have ih := famRows_complete fam t n hn' row h' hf
+      cases Nat.beq (Dy.word x 0) fam
+      · rw [cond_false]; exact ih
+      · rw [cond_true]; exact List.mem_cons_of_mem _ ih
+
+/-- every row of family code 7 of the metadata table is the last row -/
+theorem family7_unique (row : Nat) (h : row ∈ Gen.metaRowsPacked.toList) (hf : (Gen.metaDecode row).family = 7) :
+    row = Gen.metaRowsPacked.back! := by
+  have := famRows_complete 7 _ _ metaRows_length_le row h hf
+  rw [family7_rows] at this
+  simpa using this
+
+theorem dy0_val : dyR dy0 = 0 := by
+  rw [show dy0 = (0, 1074) by decide +kernel, dyR_pair]; norm_num
+theorem dyM1_val : dyR dyM1 = -1 := by
+  rw [show dyM1 = (-4503599627370496, 52) by decide +kernel, dyR_pair]; norm_num
+theorem dy4_val : dyR dy4 = 4 := by
+  rw [show dy4 = (4503599627370496, 50) by decide +kernel, dyR_pair]; norm_num
+theorem dy3_val : dyR dy3 = 3 := by
+  rw [show dy3 = (6755399441055744, 51) by decide +kernel, dyR_pair]; norm_num
+
+/-- the declared point is not itself a global minimiser: the feasible witness `w` has a smaller value -/
+theorem f_w_lt_f_p : f w1 w2 < f pR pR := by
+  have hc := certW_true
+  rw [Nat.blt_eq] at hc
+  have hc' : ((ub PX (Nat.add PX 1) PY (Nat.add PY 1) : Nat) : ℝ) < ((lbA WX WX WY WY : Nat) : ℝ) := by
+    exact_mod_cast hc
+  have h1 := f_lower _ _ _ _ pR pR p_inBox
+  have h2 := f_upper _ _ _ _ w1 w2 w_inBox
+  have : ((ub PX (Nat.add PX 1) PY (Nat.add PY 1) : Nat) : ℝ) / 2 ^ 64 < ((lbA WX WX WY WY : Nat) : ℝ) / 2 ^ 64 :=
+    div_lt_div_of_pos_right hc' (by positivity)
+  linarith
+
 end S3
